@@ -51,6 +51,10 @@ func Scenarios(thorough bool) map[string]*Scenario {
 	// only for rollouts without traffic routing)
 	m["Q09b"] = &Scenario{ID: "Q09b", Kind: "CloneSet", Style: "bluegreen", Replicas: 2, Traffic: "ingress", Grace: 1, RollbackInBatch: true,
 		Steps: []StepSpec{{Replicas: "100%", Traffic: "0%"}, {Replicas: "100%", Traffic: "100%"}}}
+	// percentages that resolve to the same pod count rounded down and to different counts rounded up (25 % of 4 = 1,
+	// 40 % of 4 = 1.6): a jump between them is NOT a jump between equal steps
+	m["Q01j"] = &Scenario{ID: "Q01j", Kind: "CloneSet", Style: "partition", Replicas: 4,
+		Steps: []StepSpec{{Replicas: "25%"}, {Replicas: "30%"}, {Replicas: "40%"}, {Replicas: "100%"}}}
 	// a workload of more than 100 replicas whose last step is the absolute count 100 (not "100%": it needs approval)
 	m["Q01L"] = &Scenario{ID: "Q01L", Kind: "CloneSet", Style: "partition", Replicas: 103,
 		Steps: []StepSpec{{Replicas: "100"}}}
@@ -173,7 +177,7 @@ func plans0(thorough bool) map[string]PropertyPlan {
 	return map[string]PropertyPlan{
 		"C01": {Scenarios: []string{"Q01", "Q01b", "Q01c", "Q05", "Q07", "Q08", "Q09", "Q10", "Q11"}, Actions: []string{"scaleUp", "scaleDown", "editPlanInts", "editPlanLow", "editPlanMid", "editPlanMore", "jump(1)", "jump(3)", "pause", "resume"}, MaxUser: u,
 			FreeQueues: true, StateCap: capQ, Monitors: func(w *World, sc *Scenario) []Monitor { return []Monitor{ExposureMonitor{}} }},
-		"C02": {Scenarios: []string{"Q01", "Q01b", "Q01L", "Q04", "Q05", "Q08", "Q09"}, Actions: []string{"pause", "resume", "editPlanMore", "rollback"}, MaxUser: u, Disturbances: []string{"crash", "midcrash"}, MaxDisturb: 1,
+		"C02": {Scenarios: []string{"Q01", "Q01b", "Q01j", "Q01L", "Q04", "Q05", "Q08", "Q09"}, Actions: []string{"pause", "resume", "editPlanMore", "rollback", "jump(3)"}, MaxUser: u, Disturbances: []string{"crash", "midcrash"}, MaxDisturb: 1,
 			FreeQueues: true, StateCap: capQ, Monitors: func(w *World, sc *Scenario) []Monitor { return []Monitor{StepMonitor{}} }},
 		"C11": {Scenarios: []string{"Q01", "Q01b", "Q01r", "Q05", "Q05r", "Q07", "Q08", "Q09", "Q10", "Q11"}, Actions: []string{"scaleUp", "scaleDown", "editPlanMore", "degrade", "jump(1)"}, MaxUser: u,
 			FreeQueues: true, StateCap: capQ, Monitors: func(w *World, sc *Scenario) []Monitor { return []Monitor{BatchStatusMonitor{}} }},
